@@ -390,7 +390,7 @@ Corollary phase2_ns_no_empty_band : forall p g g'',
   phase2 NetworkSimplex p g = Ok g'' ->
   forall i, (i < length (g_L g''))%nat -> l_nodes (glayer g'' i) <> [].
 Proof.
-  intros p g g'' W Hac Hd Hb2 Hlen H. unfold phase2 in H.
+  intros p g g'' W Hac Hd Hb2 Hlen H. unfold phase2, assign_layers in H.
   apply Nat.eqb_neq in Hlen. rewrite Hlen in H. unfold exec_network_simplex in H.
   destruct (exec_network_simplex_capped p g) as [[g' b]|err] eqn:Ex; cbn [bind fst] in H; [|discriminate].
   apply (exec_network_simplex_no_empty_band p g g' b g'' W Hac Hd Hb2 Ex H).
